@@ -238,7 +238,18 @@ def _observer_bfs(which):
         acc = amod.GeckoByteStructAccessor(st, "X", 10, "ALL")
         st.accessors = {"X": acc}
         calls = {"a": 0, "b": 0}
-        obs = {"a": (lambda *x: calls.__setitem__("a", calls["a"] + 1)), "b": (lambda *x: calls.__setitem__("b", calls["b"] + 1))}
+
+        class Client:  # observer 'a' is a bound method: every access yields a fresh, equal-but-not-identical object,
+            def on_a(self, *x):  # which is how the automation classes register themselves
+                calls["a"] += 1
+
+        client = Client()
+
+        class _Obs(dict):
+            def __getitem__(self, k):
+                return client.on_a if k == "a" else dict.__getitem__(self, k)
+
+        obs = _Obs(b=(lambda *x: calls.__setitem__("b", calls["b"] + 1)))
         model = []
         val = 0
         for op in hist:
